@@ -110,8 +110,8 @@ def r3(ctx):
             continue
         ctx.check('select|filter|last-conjunct', v == 'NtpLeapIndicator::is_synchronized(snapshot.leap_indicator)', 'filter result `%s`' % v, s.where(), sample=v)
         ctx.guard(c, s, 'radius-ok', fact_cmp('Le', r'^' + RADIUS + '$', r'^algo_config\.maximum_source_uncertainty$'), key='select|filter|radius-ok')
-        ctx.guard(c, s, 'overlap-high', fact_cmp('Le', r'^\(SourceSnapshot::offset\(snapshot\) - ' + RADIUS + r'\)$', r'^maxthigh$'), key='select|filter|overlap-high')
-        ctx.guard(c, s, 'overlap-low', fact_cmp('Ge', r'^\(SourceSnapshot::offset\(snapshot\) \+ ' + RADIUS + r'\)$', r'^maxtlow$'), key='select|filter|overlap-low')
+        ctx.guard(c, s, 'overlap-high', fact_cmp('Le', r'^\(SourceSnapshot::offset\(snapshot\) - ' + RADIUS + r'\)$', r'^maxthigh\b'), key='select|filter|overlap-high')
+        ctx.guard(c, s, 'overlap-low', fact_cmp('Ge', r'^\(SourceSnapshot::offset\(snapshot\) \+ ' + RADIUS + r'\)$', r'^maxtlow\b'), key='select|filter|overlap-low')
     ib = P.body('ntp_proto::packet::NtpLeapIndicator::is_synchronized')
     isy = [v for _, v in ret_assigns(ib)]
     # `!matches!(self, Unsynchronized)`: the inner flag is 1 exactly on the `self is Unsynchronized` edge
